@@ -125,6 +125,7 @@ pub fn render_event(seq: usize, e: &Event) -> String {
         EvKind::Print => format!("{:4} {} print  {}", seq, who, text),
         EvKind::GetRandom => format!("{:4} {} getrandom {} bytes", seq, who, e.req),
         EvKind::Deliver => format!("{:4} {} line   {}", seq, who, text),
+        EvKind::Stat => format!("{:4} {} stat   file#{} -> size {}", seq, who, e.file, e.ret),
     };
     if e.landed > 0 {
         s.push_str(&format!("   [writer appended {} bytes first]", e.landed));
